@@ -8,6 +8,7 @@ The job is a `@Job(...).prep/.post` task of a driver derived from the real Drive
 of the job from a plan file and behaves accordingly:
     S      write the return file, exit 0            F<c>   exit c
     W<c>   write the return file, then exit c       N<n>,<c>  like S from the n-th attempt on, exit c before
+    K<s>   write the return file, then die by signal s (kill -s $$)
     O      exit 0 without writing the return file
 The returned file holds `<job>:<tag>:<attempt>`; post-processing stores `<tag>|<payloads>` in the result's attrib.
 """
@@ -37,7 +38,7 @@ def main():
         c, p = shlex.quote(str(counters / job)), shlex.quote(str(plans / job))
         pay = f"printf '%s' {shlex.quote(job + ':' + tag + ':')}$n > r.txt"
         return (f"n=$(cat {c} 2>/dev/null || echo 0); n=$((n+1)); echo $n > {c}; plan=$(cat {p} 2>/dev/null || echo S); "
-                f"case $plan in S) {pay}; exit 0;; F*) exit ${{plan#F}};; W*) {pay}; exit ${{plan#W}};; "
+                f"case $plan in S) {pay}; exit 0;; F*) exit ${{plan#F}};; W*) {pay}; exit ${{plan#W}};; K*) {pay}; ulimit -c 0; kill -${{plan#K}} $$; sleep 5;; "
                 f"N*) a=${{plan#N}}; if [ $n -ge ${{a%,*}} ]; then {pay}; exit 0; else exit ${{a#*,}}; fi;; O) exit 0;; esac; exit 99")
 
     def molecule(key):
